@@ -159,7 +159,8 @@ def oracle(res, cux, ComplexS, s, rng):
     clear_singletons(ComplexS)
     K = ComplexS if rng.random() < 0.7 else _sub(ComplexS)          # sometimes a user subclass
     clear_singletons(K)
-    c = K(list(seq), list(sst), name='X')
+    shared = list(seq)                   # the caller's list: also handed to a second complex further down
+    c = K(shared, list(sst), name='X')
     r1 = [(list(a), list(b)) for a, b in c.rotate()]
     r2 = [(a, b) for a, b in c.rotate_pt()]
     if r1 != objrots or [(cux.strand_table_to_sequence(a), cux.pair_table_to_dot_bracket(b)) for a, b in r2] != objrots:
@@ -207,6 +208,25 @@ def oracle(res, cux, ComplexS, s, rng):
                 res.violation('ComplexS.rotate:after-turns', {'op': ['ComplexS.rotate', ' '.join(seq), s], 'turns': v},
                               'rotate(): %s, rotate_pt(): %s' % (g1 == want, g2 == want), 'both generators start with the current representation')
                 break
+    # a second complex described with the SAME list object (same strands, no pairs): turning one of them moves neither the other
+    # nor the caller's list - the other's generators still enumerate ITS rotations from ITS current representation
+    dots = ['+' if x == '+' else '.' for x in sst]
+    if n > 1 and dots != list(sst):
+        try:
+            c2 = K(shared, list(dots), name='Y')
+            c.turns = c.turns + 1
+            want = [(list(a), list(b)) for a, b in ref.rotations(list(seq), dots)]
+            k2 = c2.turns
+            g = [([str(x) for x in a], list(b)) for a, b in c2.rotate()]
+            cur2 = ([str(x) for x in c2.sequence], list(c2.structure))
+            if [str(x) for x in shared] != [str(x) for x in seq] or cur2 != (list(map(str, seq)), dots) or g != want or c2.turns != k2:
+                res.violation('ComplexS.rotate:after-turning-a-complex-built-from-the-same-list', {'op': ['ComplexS.turns', ' '.join(seq), s, 'twin: no pairs']},
+                              'caller list %s, twin %s / %s' % (' '.join(map(str, shared)), ' '.join(cur2[0]), ''.join(cur2[1])),
+                              'the caller\'s list and the twin unchanged; the twin enumerates its own %d rotations' % n)
+            del c2
+        except Exception as e:
+            res.violation('ComplexS.rotate:shared-list:raises:' + type(e).__name__, {'op': ['ComplexS.turns', ' '.join(seq), s, 'twin: no pairs']},
+                          '%s: %s' % (type(e).__name__, str(e)[:80]), 'two complexes'); e = None
     del c, r1, r2
     clear_singletons(ComplexS)
 
